@@ -1,5 +1,6 @@
 """C20 — HTTP/2 and HTTP/1.1 clients get the same answer."""
 import os
+import resource
 
 import kv
 from kv import Case, xn, xb, xl, xlist, xopt, xbool, xz
@@ -90,7 +91,8 @@ THEOREMS = [
     ("pair_history_answered",
      "forall (checked : bool) (ops : list pkg_op) (alt : option bytes) (e416 : resp), "
      "Forall (fun o => hop (pkg_op_name o) = false) ops -> forall (secure1 : bool) (exs : list exch), "
-     "Forall (fun e => (pr_no_request_body (ex_method e) = true -> ex_blen e = 0) /\\ N.of_nat (length (rs_body (ex_l4 e))) <= u64_max) exs -> "
+     "Forall (fun e => (pr_no_request_body (ex_method e) = true -> ex_blen e = 0) /\\ N.of_nat (length (rs_body (ex_l4 e))) <= u64_max /\\ "
+     "fut_framed (ex_l4 e) (ex_fut e)) exs -> "
      "forallb is_resp (pair_hist checked ops alt e416 H1 true secure1 exs) = true /\\ "
      "forallb is_resp (pair_hist checked ops alt e416 H2 true true exs) = true /\\ "
      "map (option_map onorm) (pair_hist checked ops alt e416 H1 true secure1 exs) = "
@@ -103,62 +105,145 @@ THEOREMS = [
     ("undeclared_request_body_refuted",
      "exists checked ops alt e416 exs, forallb is_resp (pair_hist checked ops alt e416 H1 true true exs) = false /\\ "
      "forallb is_resp (pair_hist checked ops alt e416 H2 true true exs) = true"),
+    ("pkg_menu_keeps_content_length",
+     "forall ops : list pkg_op, Forall (fun o => hop (pkg_op_name o) = false) ops -> pkg_keeps_length (pkg_menu ops)"),
+    ("send_is_pipe_send",
+     "forall (checked : bool) (error_page : N -> resp) (pkg : N -> headers -> headers) (head_future : bool) (p : proto) (secure : bool) "
+     "(alt : option bytes) (m : N) (sd : outcome (option (N * N))) (r : resp), pkg_keeps_length pkg -> "
+     "send_pipe checked error_page pkg head_future p secure alt m sd r None = send checked error_page pkg p secure alt m sd r"),
+    ("streamed_answer",
+     "forall (checked : bool) (error_page : N -> resp) (pkg : N -> headers -> headers) (p : proto) (secure : bool) (alt : option bytes) "
+     "(m : N) (sd : outcome (option (N * N))) (r : resp) (cs : list bytes) (ol : option N), "
+     "pkg_keeps_length pkg -> fut_framed r (Some (cs, ol)) -> "
+     "exists (v : N) (h : headers), send_pipe checked error_page pkg false p secure alt m sd r (Some (cs, ol)) "
+     "= Ok (WResp (mkResp v (rs_status r) h (if m =? M_HEAD then [] else rs_body r ++ concat cs))) "
+     "/\\ v = ensure_version p (rs_version r) "
+     "/\\ strip h = strip (pkg v (match ol with Some n => ensure_length p n (rs_headers (add_alt_svc secure alt r)) "
+     "| None => rs_headers (add_alt_svc secure alt r) end))"),
+    ("stream_parity",
+     "forall (checked : bool) (error_page : N -> resp) (pkg : N -> headers -> headers) (secure1 : bool) (alt : option bytes) (m : N) "
+     "(sd : outcome (option (N * N))) (r : resp) (f : option (list bytes * option N)), "
+     "pkg_oblivious pkg -> pkg_keeps_length pkg -> fut_framed r f -> "
+     "onorm (send_pipe checked error_page pkg false H1 secure1 alt m sd r f) = onorm (send_pipe checked error_page pkg false H2 true alt m sd r f)"),
+    ("head_stream_v0_refuted",
+     "exists (r : resp) (cs : list bytes) (n : N), fut_framed r (Some (cs, Some n)) /\\ "
+     "send_pipe false (fun _ => r) (fun _ h => h) true H1 true None M_HEAD (Ok None) r (Some (cs, Some n)) = Ok WBroken /\\ "
+     "send_pipe false (fun _ => r) (fun _ h => h) true H2 true None M_HEAD (Ok None) r (Some (cs, Some n)) = Ok WBroken /\\ "
+     "(exists w1 w2, send_pipe false (fun _ => r) (fun _ h => h) false H1 true None M_HEAD (Ok None) r (Some (cs, Some n)) = Ok (WResp w1) /\\ "
+     "send_pipe false (fun _ => r) (fun _ h => h) false H2 true None M_HEAD (Ok None) r (Some (cs, Some n)) = Ok (WResp w2) /\\ "
+     "rs_body w1 = [] /\\ rs_body w2 = [])"),
+    ("head_end_of_stream_refuted",
+     "exists (v st : N) (h : headers) (cs : list bytes), concat cs <> [] /\\ "
+     "receive H1 M_GET (pipe_send H1 true v st (ensure_length H1 (N.of_nat (length (concat cs))) h) None cs) "
+     "= WResp (mkResp v st (h1_connection (ensure_length H1 (N.of_nat (length (concat cs))) h)) (concat cs)) /\\ "
+     "receive H2 M_GET (pipe_send H2 true v st h None cs) = WResp (mkResp v st (h2_strip h) []) /\\ "
+     "receive H2 M_GET (pipe_send H2 false v st h None cs) = WResp (mkResp v st (h2_strip h) (concat cs))"),
+    ("limiter_answer_parity",
+     "forall (m : N) (r : resp), onorm (send_direct H1 m r) = onorm (send_direct H2 m r) /\\ "
+     "forall p : proto, exists h : headers, send_direct p m r = "
+     "Ok (WResp (mkResp (ensure_version p (rs_version r)) (rs_status r) h (if m =? M_HEAD then [] else rs_body r))) "
+     "/\\ strip h = strip (rs_headers r)"),
+    ("connection_headers_filter_total",
+     "forall h : headers, h2_refuses (h2_strip h) = false /\\ strip (h2_strip h) = strip h"),
+    ("read_to_bytes_parity",
+     "forall (body early conn : bytes) (frames : list bytes) (max_len : N), early ++ conn = body -> concat frames = body -> "
+     "fst (h1_read_to_bytes (mkH1B early conn (N.of_nat (length body))) max_len) = firstn (N.to_nat max_len) body /\\ "
+     "fst (h2_read_to_bytes frames max_len) = firstn (N.to_nat max_len) body"),
+    ("second_read_refuted",
+     "exists (body early conn : bytes) (frames : list bytes) (l1 l2 : N), early ++ conn = body /\\ concat frames = body /\\ "
+     "h1_reads (mkH1B early conn (N.of_nat (length body))) [l1; l2] <> h2_reads frames [l1; l2]"),
+    ("stream_body_framed",
+     "forall (file : bytes) (a c : N), "
+     "match stream_plan true file (Some (a, c)) with Some (b, n) => n = N.of_nat (length b) | None => True end /\\ "
+     "match stream_plan true file None with Some (b, n) => n = N.of_nat (length b) /\\ b = file | None => False end"),
+    ("stream_body_v0_refuted",
+     "exists (file : bytes) (a c : N), a < c /\\ "
+     "match stream_plan false file (Some (a, c)) with Some (b, n) => n <> N.of_nat (length b) | None => False end"),
 ]
 
 RULE = ("Real kvarn::handle_connection on loopback TCP pairs, TLS by a rustls ServerConfig from HostCollection::make_config (ALPN from "
         "host::alpn(), self-signed rcgen certificate on the host, as kvarn_testing::ServerBuilder builds it). (1) proto.pair: the SAME "
-        "history of 4-9 requests is sent over one HTTP/1.1 connection (raw client with strict content-length framing; over TLS with ALPN "
+        "history of 4-14 requests is sent over one HTTP/1.1 connection (raw client with strict content-length framing; over TLS with ALPN "
         "http/1.1, or plain TCP) to host A and over one HTTP/2 connection (h2 crate client over tokio-rustls, ALPN h2) to an identical "
-        "fresh host B; the ALPN result is asserted. Hosts: response cache on/off x handler pages (compressible text with "
-        "ServerCachePreference Full / None, QueryMatters page echoing path?query, method echo, a page whose handler sets its own "
-        "content-length, pages whose handlers leave connection-specific headers (keep-alive, connection, upgrade, te, "
-        "proxy-connection), empty body, 404/500 handler pages) + files (text, binary, index.html) + missing paths + unsafe paths "
-        "(/./x) + echo handlers that read the request body completely (/echo, read_to_bytes(1 MiB)) or only its first 3 / 100 bytes "
-        "(/echo3, /echo100); Package menus (or_insert / insert / remove / append, 0-3 "
-        "extensions in priority order). Requests: GET/HEAD/POST/OPTIONS/PUT/DELETE/PATCH x Accept-Encoding {none, gzip, br, identity, gzip;q=0, "
-        "*;q=0 identity;q=0} x Range around the length of the ENCODED representation (a>b, a=len, open forms) x If-Modified-Since "
-        "(future / past / garbage; cold and warm cache) x Origin x query strings x REQUEST BODIES of 1 B - 150 kB (around the limits of "
-        "the partial readers and around the HTTP/2 initial flow-control window 65535, so that WINDOW_UPDATEs are needed) sent to "
-        "whatever answers: a handler that reads all, part or nothing of it, files (405), missing paths, cache hits, refused Ranges "
-        "(416) and unsafe paths (400), a body that looks like a request - written with the head, some ms later, or (unread ones) only "
-        "after the answer has been read, so that the server must take it from the connection - each followed by the rest of the "
-        "history on the SAME connection and a sentinel request that checks the framing; the h2 client keeps the default 65535-byte "
-        "windows, so echoed 70 kB / 150 kB answers need its WINDOW_UPDATEs. proto.answered: histories made of such requests; the "
-        "implementation's (every request answered on HTTP/1.1?, on HTTP/2?) against the model's connection loop and the "
-        "specification (yes, yes). Oracles: (a) parity itself, independent of "
-        "the model: status, all headers except {connection, keep-alive, proxy-connection, transfer-encoding, upgrade, te, "
-        "content-length, alt-svc} as sorted "
-        "multisets (last-modified value masked) and body bytes of the two protocols are equal; (b) both equal the Coq specification "
-        "proto.pair_spec (range_spec of C09 on the layer-4 response, package menu on end-to-end headers, body unless HEAD); (c) the "
-        "complete wire answers (version, every header incl. content-length / connection / alt-svc) equal the extracted model "
-        "send H1 / send H2. The layer-4 response of every request (kvarn::handle_cache's CacheReply) and the host's 416 page are "
-        "observed in process on a third identical fresh host running the same history (proto.l4) and are inputs of model and spec. "
-        "proto.server: a sample of the histories through two complete servers started by RunConfig::execute on loopback ports "
-        "(listener, accept loop, TLS + ALPN, connection tasks, graceful shutdown), same model and oracles. "
-        "(2) proto.burst: 2-32 requests sent AT ONCE as streams of one HTTP/2 connection to one fresh host: H_slow handlers sleeping a "
-        "seeded 0-250 ms (x-delay header) so that handlers finish in a seeded order unrelated to the stream order, several streams per "
-        "page, cacheable and uncacheable pages, cache on/off, HEAD, ranges, Accept-Encoding, files, 404s, POST echo with a distinct "
-        "body per stream (up to 70 kB) and bodies that are read in part or not at all (also by the slow handlers); proto.burst1: the same burst over as many concurrent HTTP/1.1 TLS connections. Oracle: every stream's "
-        "answer equals send H2 (H1) of the layer-4 response of ITS request alone on a fresh host (proto.burst_spec), equals the "
-        "two-block task model run in the schedule derived from the delays (correspondence), and equals the answer the real server "
-        "gives the same request alone over a fresh connection to a fresh host (proto.alone / proto.alone1, same model). "
-        "distinct_nontrivial = distinct (input, sequence of (status, cache/encoding class)) pairs")
+        "fresh host B; the ALPN result is asserted. Hosts: response cache on/off (every directed history runs on both) x handler pages "
+        "(compressible text with ServerCachePreference Full / None, QueryMatters page echoing path?query, method echo, a page whose "
+        "handler sets its own content-length, empty body, 404/500 handler pages) + pages whose handlers leave CONNECTION-SPECIFIC "
+        "headers: every single one of keep-alive, proxy-connection, transfer-encoding, upgrade, te (gzip / trailers) WITHOUT a connection "
+        "header, all at once, with connection: close / keep-alive / upgrade, connection nominating a custom header, and three pages per "
+        "random host with seeded random subsets + STREAMED responses (a ResponsePipeFuture writing known chunks incl. an empty one: "
+        "with_future_and_len, with_future + the handler's own content-length, a Response body followed by a future, 81 kB = more than an "
+        "HTTP/2 window, a slow future, an empty stream, an error status; extensions::stream_body() on files of 0 B / 180 B / 100 kB) + "
+        "files (text, binary, index.html) + missing paths + unsafe paths (/./x) + echo handlers that read the request body completely "
+        "(/echo, read_to_bytes(1 MiB)) or only its first 3 / 100 / 20000 / 33000 bytes - and echo UNCUT what read_to_bytes returned; "
+        "Package menus (or_insert / insert / remove / append, 0-3 extensions in priority order); two hosts per run with the request "
+        "LIMITER on (the first k requests pass, the rest - GET, HEAD, POST with a body, and the framing sentinel - are answered 429 by "
+        "handle_connection); two hosts per run with 64 KiB and 1 MiB compressible pages (identity / gzip / br, cold and cached, ranged, HEAD; "
+        "the h2 client keeps 65535-byte windows). Requests: GET/HEAD/POST/OPTIONS/PUT/DELETE/PATCH x Accept-Encoding {none, gzip, br, identity, "
+        "gzip;q=0, *;q=0 identity;q=0 (406)} x Range around the length of the ENCODED representation and of the streamed files (a>b, "
+        "a=len, beyond the end, open forms) x If-Modified-Since (future / past / garbage; cold and warm cache) x Origin x query strings x "
+        "REQUEST BODIES of 1 B - 150 kB (around the limits of the partial readers, around the 16384-byte DATA frame size and around the "
+        "HTTP/2 initial window 65535; position-stamped so that a prefix is recognisable) sent to whatever answers: a handler that reads "
+        "all, part or nothing of it, streamed pages, files (405), missing paths, cache hits, refused Ranges (416), unsafe paths (400), the "
+        "limiter (429) - written with the head, some ms later, or (unread ones) only after the answer has been read - each followed by "
+        "the rest of the history on the SAME connection and a sentinel request that checks the framing. proto.answered: histories of "
+        "such requests; (every request answered on HTTP/1.1?, on HTTP/2?) against the model's connection loop and the specification "
+        "(yes, yes); a 'no' counts only if three runs agree. Oracles: (a) parity itself, independent of the model: status, all headers "
+        "except {connection, keep-alive, proxy-connection, transfer-encoding, upgrade, te, content-length, alt-svc} as sorted multisets "
+        "(last-modified value masked) and body bytes of the two protocols are equal, a HEAD answer has no body, content-length = body "
+        "length; (b) both equal the Coq specification proto.pair_spec (range_spec of C09 on the layer-4 response - not on streamed ones -, "
+        "package menu on end-to-end headers, body ++ streamed bytes unless HEAD, the limiter's page as it is); (c) the complete wire "
+        "answers (version, every header incl. content-length / connection / alt-svc) equal the extracted pipe-level model send_pipe H1 / "
+        "H2. The layer-4 response of every request (kvarn::handle_cache's CacheReply), WHAT ITS FUTURE WRITES (driven in process through "
+        "a plain pipe) with the overridden length, the host's 416 page and the limiter's 429 page are observed in process on a third "
+        "identical fresh host running the same history (proto.l4) and are inputs of model and spec. proto.server: a sample of the "
+        "histories through two complete servers started by RunConfig::execute on loopback ports (claimed through lock files: unique among "
+        "all harness processes; listener, accept loop, TLS + ALPN, connection tasks, graceful shutdown), same model and oracles. "
+        "(2) proto.burst: 2-100 requests sent AT ONCE as streams of one HTTP/2 connection (proto.burst2: spread over TWO connections "
+        "open at once) to one fresh host on a multi-thread runtime: H_slow handlers sleeping a seeded 0-250 ms so that handlers finish "
+        "in a seeded order unrelated to the stream order, several streams per page, cacheable and uncacheable pages, cache on/off, "
+        "HEAD, ranges, Accept-Encoding, files, streamed pages, 404s, POST echo with a distinct body per stream (up to 70 kB, partly read "
+        "ones too), bodies nobody reads, and ~12 % of the slow streams CANCELLED by the client (RST_STREAM(CANCEL) 0-150 ms after the "
+        "request: before, while or after the handler runs); proto.burst1: the same burst over as many concurrent HTTP/1.1 TLS "
+        "connections (cancelled = the client goes away). Oracle: every stream that was not cancelled receives the answer send_pipe H2 "
+        "(H1) gives the layer-4 response of ITS request alone on a fresh host (proto.burst_spec), equal to the two-block task model run "
+        "in the schedule derived from the delays, and to what the real server answers the same request alone over a fresh connection "
+        "(proto.alone / proto.alone1); the connections answer a sentinel afterwards. (3) proto.body: a handler calling "
+        "read_to_bytes(l) on a body of 1 B - 150 kB sent over HTTP/1.1 (a seeded part of it in the same write as the head) and over "
+        "HTTP/2 in DATA frames of seeded lengths (1 .. 16384, one send_data each): what each call returned on each protocol against "
+        "the transcribed loops (h1_read_to_bytes / h2_read_loop) and the specification (the first min(l, length) bytes on both). "
+        "(4) proto.sbody: extensions::stream_body() in process on files and Ranges (inside, across, at and beyond the end): bytes written "
+        "and length announced against stream_plan. A failure of an exchange that is a time-out or a connection that cannot be opened "
+        "is never an outcome (the case is run again, then counted as not executed); any other failure is an outcome only when it repeats "
+        "identically on three runs with fresh hosts. distinct_nontrivial = distinct (input, sequence of (status, cache/encoding class)) pairs")
 ASSUMPTIONS = [
-    "Package extensions are oblivious to the response version and to connection-level headers (pkg_oblivious; proved for the "
-    "harness's menu whenever it names no hop header: pkg_menu_is_oblivious); status rewriting by a Package extension is not modelled",
-    "h2's check_headers (the only condition under which the h2 crate refuses a response head) is transcribed; h2_never_refuses "
-    "shows the repaired HTTP/2 arm never triggers it",
+    "Package extensions are oblivious to the response version and to connection-level headers (pkg_oblivious) and leave content-length "
+    "alone (pkg_keeps_length: on HTTP/1 that header is the framing); both proved for the harness's menu whenever it names no hop header "
+    "(pkg_menu_is_oblivious, pkg_menu_keeps_content_length); status rewriting by a Package extension is not modelled",
+    "h2's check_headers (the only condition under which the h2 crate refuses a response head) is transcribed; h2_never_refuses / "
+    "connection_headers_filter_total show the repaired HTTP/2 arm never triggers it, for every header set",
+    "the client's framing is part of the model (receive): an HTTP/1.1 body is the content-length bytes after the head (none for HEAD), "
+    "an HTTP/2 body the DATA frames up to END_STREAM, refused by the h2 client when they contradict a content-length or follow a HEAD "
+    "answer - transcribed from the harness's raw HTTP/1.1 client and observed behaviour of the h2 0.4 client, not from a specification "
+    "of all clients",
+    "streamed responses: the length a handler announces (with_future_and_len, or its own content-length with with_future) is the "
+    "number of bytes Response::body and the future write (fut_framed) - proved for extensions::stream_body() as repaired "
+    "(stream_body_framed), a precondition on other handlers; a future that gives up at the first failed write; WebSocket futures "
+    "(no length at all: not a response body) and Post extensions are outside; no range is applied to a streamed response (kvarn's "
+    "is_stream) - stream_body slices the file itself",
     "stream_independence: the handler contract of C03 (response a function of method class, path, vary tuple and - for "
     "QueryMatters - the query; uniform query-matters-ness per path; error responses uncacheable), requests without "
     "If-Modified-Since (a conditional request is answered 304 or 200 depending on whether another stream has filled the cache "
     "- legitimately order-dependent), the cache's last-modified wall-clock stamp masked; task granularity = two atomic blocks "
-    "(lookup / insert) separated by the await on the handler; moka as a finite map whose capacity is never reached",
+    "(lookup / insert) separated by the await on the handler; moka as a finite map whose capacity is never reached; a stream the "
+    "client cancels is a stream whose answer is not observed (its task may run none, one or both of its blocks: every schedule is "
+    "covered); the tasks of two connections to one host share exactly what the tasks of one connection share (the host)",
     "compression: the representation clone_preferred chooses is a function of request and response, not of the cache path "
     "(the harness gives compression_options_oneshot = compression_options_cached); which bytes a compressor emits is external: "
     "the layer-4 response is observed, not predicted",
     "requests both protocols can express: lower-case header names, no host/connection/keep-alive/transfer-encoding/upgrade/te "
     "request headers, origin-form target, a request body announced by content-length on both protocols and sent completely; no "
-    "streaming (WebSocket / ResponsePipeFuture) responses, no HTTP/2 server push, HTTP/3 not exercised (UDP/QUIC)",
+    "HTTP/2 server push, HTTP/3 not exercised (UDP/QUIC); the 409 answer for an unknown host is modelled (send_direct) but not "
+    "exercised (every request reaches the one host)",
     "request bodies only with methods whose content-length kvarn's HTTP/1 reader honours (utils::get_body_length_request returns 0 "
     "for GET/HEAD/OPTIONS/CONNECT/TRACE whatever content-length says - as in C08, a GET that carries a body is outside: the "
     "hypothesis body_declared of history_parity / pair_history_answered; undeclared_request_body_refuted shows in the model that "
@@ -167,6 +252,11 @@ ASSUMPTIONS = [
     "h1-undeclared-request-body, the only input of that kind the generators send); history_parity additionally assumes that no "
     "answer makes a task panic, which send_never_panics proves for every sanitize_data that sanitize_request can produce and "
     "bodies below 2^64 bytes",
+    "which bytes a handler gets: read_to_bytes_parity is about the FIRST read_to_bytes call of a handler (every body, every framing, "
+    "every limit; the HTTP/1 client sends exactly the declared bytes); a handler that calls it again after a call that hit its limit "
+    "is the known class h2-body-read-again (second_read_refuted; its witness is replayed on every run and is the only such input); a "
+    "first limit of 0 is not generated (HTTP/1 then leaves content_length untouched, HTTP/2 drops the first frame); a handler's answer "
+    "is a function of the request and of the bytes it read - equal bytes, equal answers",
     "the HTTP/1 client writes the declared body with the head, a few ms after it, or - for targets whose handlers never read a "
     "body - only after it has read the answer (then Http1Body::drain has to take all of it from the connection; this is the only "
     "segmentation that decides a verdict, and it does not depend on timing); bodies <= 150 kB, answers to unread ones < 1 kB: no "
@@ -176,59 +266,91 @@ ASSUMPTIONS = [
 TRUSTED = [
     "modelled (Model/Protocols.v): src/lib.rs handle_connection (alt-svc append, per-request task for HTTP/2, the HTTP/1 request loop "
     "with the fate of a request body: Http1Body::new's early bytes, read_to_bytes(l) taking min(declared, l), Http1Body::drain of "
-    "fix dfe4d54 - and the loop before that fix as the variant drain = false), SendKind::send (range "
-    "application incl. the 416 replacement, ensure_length, ensure_version, resolve_package, body/HEAD rule), src/application.rs "
-    "ResponsePipe::{ensure_length, ensure_version, send_response} HTTP/1 and HTTP/2 arms (connection: keep-alive rule, "
-    "remove_connection_specific_headers); utils::get_body_length_request (which methods have a declared body); "
+    "fix dfe4d54 - and the loop before that fix as the variant drain = false; the limiter's 429 / the 409 answer: send_direct), "
+    "SendKind::send (range application incl. the 416 replacement - skipped for streamed responses -, the overridden length, "
+    "ensure_length, ensure_version, resolve_package, then the OPERATIONS ON THE PIPE in order: send_response(head, false), the body "
+    "unless HEAD, the future's writes - not for HEAD: fix 572c88a, head_future = true is the code before -, close), src/application.rs "
+    "ResponsePipe::{ensure_length, ensure_version, send_response} and ResponseBodyPipe::{send_with_maybe_close, close} HTTP/1 and "
+    "HTTP/2 arms (connection: keep-alive rule, remove_connection_specific_headers, END_STREAM, send_data failing on an ended stream), "
+    "Body::read_to_bytes HTTP/1 (Http1Body) and HTTP/2 (the DATA-frame loop) arms; utils::get_body_length_request; "
+    "extensions::stream_body's range arithmetic (stream_plan; fix 7cbe1e5, clamp = false is the code before); "
     "h2 0.4 proto/streams/send.rs check_headers (the only h2 logic transcribed)",
     "NOT modelled, exercised only: rustls (handshake, records, ALPN selection), h2 (HPACK, flow control incl. the WINDOW_UPDATEs "
-    "Body::read_to_bytes releases and the RST_STREAM(NO_ERROR) after an answer whose request body was not read, frame scheduling, "
-    "stream state machine, the client-side content-length check), tokio task scheduling, moka; src/encryption.rs; the request "
-    "readers (kvarn_async::read::request is C07's; which BYTES read_to_bytes returns on either protocol is observed through the "
-    "echo pages, not modelled: the model has the number of bytes taken only)",
+    "Body::read_to_bytes releases, the windows a 1 MiB / streamed 81 kB answer needs, and the RST_STREAM(NO_ERROR) after an answer "
+    "whose request body was not read, frame scheduling and the splitting of send_data into frames, stream state machine, RST_STREAM "
+    "from the client, the client-side content-length check), tokio task scheduling (multi-thread runtime, 3 workers), moka; "
+    "src/encryption.rs; the request head reader (kvarn_async::read::request is C07's); kvarn's rate limiter (C12's: which requests it "
+    "limits is an input here)",
     "layer 4 (handle_cache and below) is C03's model in the theorems and an OBSERVATION of the real handle_cache on an identical "
-    "fresh host in the correspondence (proto.l4); the twin hosts are deterministic functions of the configuration",
+    "fresh host in the correspondence (proto.l4: response, sanitize class, what the response's future writes and the overridden "
+    "length); the twin hosts are deterministic functions of the configuration",
     "harness/src/c20.rs: raw HTTP/1.1 client (strict status line / header / content-length framing, sentinel request), h2 client "
-    "driver, rcgen certificate, Package / H_slow / echo / echon extensions; header multisets are sorted before comparison, the value "
-    "of last-modified is masked; the echon handler cuts what read_to_bytes(l) returns to l bytes (the in-memory Body::Bytes of the "
-    "layer-4 probe ignores the limit)",
+    "driver, rcgen certificate, Package / H_slow / echo / echon / echo2 / stream / read-body extensions; header multisets are sorted "
+    "before comparison, the value of last-modified is masked; the echo handlers echo what read_to_bytes returned UNCUT on a "
+    "connection (only the in-memory Body::Bytes of the layer-4 probe, which ignores the limit and is neither protocol, is cut to "
+    "the limit: that yields the specification 'the first l bytes'); the classification of failures into harness trouble / outcome "
+    "(is_trouble, three agreeing runs)",
 ]
-LEVEL_TEXT = ("partial. Machine-checked Coq theorems over an executable model of the protocol-dependent send path above the shared "
-              "layer 4 of C03: protocol_parity / send_parity (for every host configuration, cache state, request, layer-4 response, "
-              "TLS or plain HTTP/1 connection and oblivious Package chain the HTTP/1.1 and HTTP/2 answers are equal after dropping the "
-              "version and exactly the headers connection, keep-alive, proxy-connection, transfer-encoding, upgrade, te, "
-              "content-length, alt-svc - proved, not sampled: nothing else differs; h2_never_refuses: the h2 crate's header check "
-              "never rejects the head the repaired HTTP/2 arm produces), head_parity (HEAD = GET minus body on both "
-              "protocols), stream_independence (for every set of concurrent streams and EVERY schedule of the tasks' lookup and "
-              "completion blocks over the shared response cache, every stream receives byte for byte the HTTP/2 answer of its own "
-              "request alone, under C03's handler contract), streams_answered_exactly_once, and - request bodies - history_parity "
-              "(for every host configuration and state and EVERY history of requests on one connection, each with a declared request "
-              "body of any length that its handler reads completely, in part or not at all, segmented arbitrarily: the repaired "
-              "HTTP/1 connection, like the HTTP/2 one, answers every request, by the application in the state its predecessors left, "
-              "and the two answer sequences are equal up to the same filter; hypothesis: no answer panics, discharged by "
-              "send_never_panics), pair_history_answered (the executable history model of the correspondence equals its "
-              "specification on every input of the domain) and the two witnesses unread_request_body_v0_refuted (the loop before "
-              "fix dfe4d54 answers the PUT-with-refused-Range witness's second request on HTTP/2 only) and "
-              "undeclared_request_body_refuted (the domain hypothesis cannot be dropped: a GET carrying body bytes). "
-              "The model is tied to /repo on every run "
-              "by real TLS loopback connections through kvarn::handle_connection with an HTTP/1.1 and an HTTP/2 client (full wire "
-              "answers vs. the extracted model, parity and specification oracles, multiplexed bursts with seeded handler delays vs. "
-              "each request alone, histories with unread / partly read / large request bodies on both protocols). NOT proved, only "
-              "exercised by that run: everything inside the h2 and rustls crates - HPACK, flow "
-              "control (window updates for large request bodies, the reset after an unread one), stream scheduling and state machine, "
-              "TLS and ALPN - and the tokio scheduler; the concurrency theorem is about "
-              "sequentially consistent interleavings of two atomic blocks per task; which bytes a partial read returns is observed, "
-              "the model only has how many are taken. The former known class h1-unread-request-body was repaired by kvarn commit "
-              "dfe4d54 and is now part of the claim. One known class, outside the property's quantifier (the C08 generator sends no "
-              "such request): h1-undeclared-request-body - kvarn's HTTP/1 reader ignores the content-length of GET / HEAD / OPTIONS "
-              "(by design: its unit test expects it), so body bytes of a GET that arrive after its head break the HTTP/1.1 "
-              "connection and not the HTTP/2 one; the theorems carry the hypothesis, the witness is replayed on every run.")
+LEVEL_TEXT = ("partial. Machine-checked Coq theorems (25, statements pinned) over an executable model of the protocol-dependent path above "
+              "the shared layer 4 of C03: protocol_parity / send_parity (for every host configuration, cache state, request, layer-4 "
+              "response, TLS or plain HTTP/1 connection and oblivious Package chain the HTTP/1.1 and HTTP/2 answers are equal after "
+              "dropping the version and exactly the headers connection, keep-alive, proxy-connection, transfer-encoding, upgrade, te, "
+              "content-length, alt-svc - proved, not sampled: nothing else differs; h2_never_refuses and "
+              "connection_headers_filter_total: for EVERY header set - every subset of the connection-specific headers, with or "
+              "without connection - the head the repaired HTTP/2 arm hands to h2 passes h2's check and no end-to-end header is "
+              "touched), head_parity (HEAD = GET minus body on both protocols); the RESPONSE PIPE: send_is_pipe_send (the model "
+              "of the operations on the pipe - head, body unless HEAD, close - and of the client's framing of what arrives IS send), "
+              "streamed_answer and stream_parity (a response with a streaming future, every chunk list, method and protocol: the "
+              "client receives one well-framed response whose body is Response::body followed by what the future wrote - nothing "
+              "for HEAD - and the two protocols agree up to the same filter, whenever the announced length is the number of bytes "
+              "written; stream_body_framed: extensions::stream_body as repaired meets that for every file and Range), "
+              "limiter_answer_parity (the 429 / 409 answers handle_connection sends itself); stream_independence (for every set of "
+              "concurrent streams and EVERY schedule of the tasks' lookup and completion blocks over the shared response cache, every "
+              "stream receives byte for byte the HTTP/2 answer of its own request alone, under C03's handler contract - cancelled "
+              "streams and a second connection are covered by the quantification over schedules), streams_answered_exactly_once; "
+              "REQUEST BODIES: history_parity (for every host configuration and state and EVERY history of requests on one "
+              "connection, each with a declared request body of any length that its handler reads completely, in part or not at "
+              "all, segmented arbitrarily: the repaired HTTP/1 connection, like the HTTP/2 one, answers every request, by the "
+              "application in the state its predecessors left, and the two answer sequences are equal up to the same filter; "
+              "hypothesis: no answer panics, discharged by send_never_panics), read_to_bytes_parity (for every body, every cut "
+              "into DATA frames, every amount arriving with the HTTP/1 head and every limit the first read_to_bytes(l) returns the "
+              "first l bytes on both protocols), pair_history_answered (the executable history model of the correspondence - "
+              "ordinary, streamed and limiter-answered exchanges - equals its specification on every input of the domain); and "
+              "six witnesses: head_end_of_stream_refuted (why the head must not carry END_STREAM when Response::body is empty), "
+              "unread_request_body_v0_refuted (the loop before fix dfe4d54), head_stream_v0_refuted (before fix "
+              "572c88a a HEAD for a streamed response got the streamed bytes: broken framing on both protocols), "
+              "stream_body_v0_refuted (before fix 7cbe1e5 stream_body announced more bytes than it sent for a Range beyond the "
+              "file), undeclared_request_body_refuted and second_read_refuted (the two known classes). The model is tied to /repo "
+              "on every run by real TLS loopback connections through kvarn::handle_connection with an HTTP/1.1 and an HTTP/2 "
+              "client (full wire answers vs. the extracted model, parity and specification oracles; streamed responses, every "
+              "connection-header subset, limiter answers, 64 KiB / 1 MiB compressed bodies, cached and uncached; bursts of up to 100 "
+              "streams with seeded handler delays, cancelled streams and two connections vs. each request alone; histories with "
+              "unread / partly read / large request bodies; what read_to_bytes returns per protocol). NOT proved, only exercised "
+              "by that run: everything inside the h2 and rustls crates - HPACK, flow control, frame splitting and scheduling, stream "
+              "state machine, RST_STREAM handling, TLS and ALPN - and the tokio scheduler; the concurrency theorem is about "
+              "sequentially consistent interleavings of two atomic blocks per task. Two kvarn defects found by this round were "
+              "repaired (572c88a, 7cbe1e5) and are part of the claim, as is the former known class h1-unread-request-body (dfe4d54). "
+              "Two known classes, both outside the property's quantifier: h1-undeclared-request-body (kvarn's HTTP/1 reader ignores "
+              "the content-length of GET / HEAD / OPTIONS by design, so body bytes of a GET that arrive after its head break the "
+              "HTTP/1.1 connection and not the HTTP/2 one) and h2-body-read-again (a handler calling read_to_bytes a second time "
+              "after a call that hit its limit gets nothing on HTTP/1.1 and the later DATA frames on HTTP/2; Body::Http2 has no "
+              "place to remember it); the theorems carry the hypotheses, both witnesses are replayed on every run.")
 LEVEL_NOTE = ("Trusted: Coq kernel; extraction (sample re-checked in-kernel); the hand transcription of SendKind::send / ResponsePipe / "
-              "handle_connection's request loop into Model/Protocols.v as validated by the differential run; h2 and rustls as black "
-              "boxes; layer 4 observed on a twin host; request bodies only where kvarn's HTTP/1 reader honours content-length "
-              "(not GET/HEAD/OPTIONS). No axioms.")
-TECHNIQUE = ("Coq proof (equality up to an explicit header filter; inductive invariant over all schedules, reusing C03's simulation) + "
-             "differential correspondence over real TLS connections with both protocols")
+              "ResponseBodyPipe / Body::read_to_bytes / handle_connection's request loop / stream_body's range arithmetic into "
+              "Model/Protocols.v and of the clients' framing into receive, as validated by the differential run; h2 and rustls as "
+              "black boxes; layer 4 and stream futures observed on a twin host; request bodies only where kvarn's HTTP/1 reader "
+              "honours content-length (not GET/HEAD/OPTIONS), first read_to_bytes call only. No axioms.")
+TECHNIQUE = ("Coq proof (equality up to an explicit header filter; a small-step model of the response pipe with the client's framing; "
+             "inductive invariant over all schedules, reusing C03's simulation; induction over DATA frames) + differential "
+             "correspondence over real TLS connections with both protocols")
+
+# The extracted model recurses over byte lists (List.length, firstn, ++ are not tail-recursive): a 1 MiB body needs more than the
+# default 8 MiB of stack.  The model driver and the harness are children of this process: give them the hard limit.
+try:
+    _soft, _hard = resource.getrlimit(resource.RLIMIT_STACK)
+    resource.setrlimit(resource.RLIMIT_STACK, (_hard, _hard))
+except (ValueError, OSError):
+    pass
 
 PAIRS = ("proto.pair", "proto.server")
 ALT = b'h3=":8443";ma=2592000'
@@ -256,12 +378,89 @@ PKG_MENUS = [
 ]
 
 
-# handlers that read only the first n bytes of the request body (read_to_bytes(n)); /echo reads all of it (up to 1 MiB)
-ECHON = {b"/echo3": 3, b"/echo100": 100}
+# handlers that read only the first n bytes of the request body (read_to_bytes(n)); /echo reads all of it (up to 1 MiB).
+# The two large limits are reached inside the second / third DATA frame of a large body (HTTP/2 frames: 16384 bytes).
+ECHON = {b"/echo3": 3, b"/echo100": 100, b"/echo20k": 20000, b"/echo33k": 33000}
 READS = dict(list(ECHON.items()) + [(b"/echo", 1 << 20)])
 
+# ---- streamed responses (FatResponse::with_future / with_future_and_len) ----
+CHUNKS = [b"first chunk of the streamed body\n", b"", b"second chunk, a little longer than the first one\n", b"third and last chunk\n"]
+BIGCHUNKS = [bytes((i * 7 + k) % 251 for i in range(9000)) for k in range(9)]       # 81000 bytes: more than one HTTP/2 window
 
-def host_cfg(cache, pkg, with_files=True, slow=(), ctlen=True):
+
+def ST(path, body, chunks, ln, headers, status=200, delay=0):
+    return (path, body, tuple(chunks), ln, tuple(headers), status, delay)
+
+
+def _tot(body, chunks):
+    return len(body) + sum(map(len, chunks))
+
+
+STREAMS = [
+    ST(b"/st1", b"", CHUNKS, _tot(b"", CHUNKS), [(b"content-type", b"text/plain")]),
+    # with_future: kvarn is told no length, the handler states it itself
+    ST(b"/st2", b"", CHUNKS, None, [(b"content-type", b"text/plain"), (b"content-length", b"%d" % _tot(b"", CHUNKS))]),
+    # a Response body AND a future: head, body, future, close
+    ST(b"/st3", b"body first, then ", CHUNKS, _tot(b"body first, then ", CHUNKS), [(b"content-type", b"text/plain"), (b"x-h", b"st3")]),
+    ST(b"/st4", b"", BIGCHUNKS, _tot(b"", BIGCHUNKS), [(b"content-type", b"application/octet-stream")]),
+    ST(b"/st5", b"", CHUNKS, _tot(b"", CHUNKS), [(b"content-type", b"text/plain"), (b"keep-alive", b"timeout=5")], delay=4),
+    ST(b"/st0", b"", [], 0, [(b"x-h", b"st0")]),
+    ST(b"/st404", b"", [b"streamed not found page"], 23, [(b"content-type", b"text/plain")], status=404),
+]
+STREAM_PATHS = [t[0] for t in STREAMS]
+SFILE = bytes((i * 7 + 3) % 256 for i in range(100000))
+STEXT = b"hello stream body\n" * 10
+SFILES = [("public/sf/a.bin", SFILE), ("public/sf/t.txt", STEXT), ("public/sf/e.txt", b"")]
+SF_PATHS = [b"/sf/a.bin", b"/sf/t.txt", b"/sf/t.txt", b"/sf/e.txt", b"/sf/missing.txt"]
+
+# ---- connection-specific headers (RFC 9113 8.2.2) a handler may leave on its response: every subset, with and without
+#      `connection`, and `connection` nominating a custom header ----
+HOP_MENU = [(b"keep-alive", b"timeout=5"), (b"proxy-connection", b"keep-alive"), (b"transfer-encoding", b"identity"),
+            (b"upgrade", b"h2c"), (b"te", b"gzip"), (b"te", b"trailers")]
+CONN_VALUES = [None, None, b"keep-alive", b"close", b"x-nominated", b"upgrade"]
+
+
+def hop_page(path, subset, conn, extra=()):
+    hs = [(b"content-type", b"text/plain")] + list(subset) + list(extra)
+    if conn is not None:
+        hs.append((b"connection", conn))
+        if conn == b"x-nominated":
+            hs.append((b"x-nominated", b"v"))
+    return (path, hs)
+
+
+# every single connection-specific header WITHOUT `connection`, all of them at once, and with `connection`
+HOPS_DIRECTED = [hop_page(b"/hs%d" % i, [h], None) for i, h in enumerate(HOP_MENU)] + [
+    hop_page(b"/hs6", HOP_MENU[:5], None), hop_page(b"/hs7", HOP_MENU[:5], b"close"), hop_page(b"/hs8", [], b"x-nominated"),
+    hop_page(b"/hs9", [HOP_MENU[5]], b"keep-alive")]
+
+
+def rand_hops(rng, n=3):
+    out = []
+    for i in range(n):
+        sub = [h for h in HOP_MENU[:4] if rng.random() < 0.4]
+        if rng.random() < 0.5:
+            sub.append(rng.choice(HOP_MENU[4:]))
+        rng.shuffle(sub)
+        out.append(hop_page(b"/hs%d" % i, sub, rng.choice(CONN_VALUES)))
+    return out
+
+
+# ---- large compressible representations (HTTP/2 flow control on the response; the h2 client keeps 65535-byte windows) ----
+def big_text(n):
+    import hashlib
+    out, i = [], 0
+    while sum(map(len, out)) < n:
+        out.append(b"line %06d %s the quick brown fox\n" % (i, hashlib.sha256(b"%d" % i).hexdigest()[:40].encode()))
+        i += 1
+    return b"".join(out)[:n]
+
+
+BIG64 = big_text(64 * 1024)
+BIG1M = big_text(1 << 20)
+
+
+def host_cfg(cache, pkg, with_files=True, slow=(), ctlen=True, hops=HOPS_DIRECTED, streams=True, limit=None, big=0):
     hs = [H(b"/p", TEXT, headers=[(b"content-type", b"text/plain"), (b"x-h", b"p")], spref=2, compress=True),
           H(b"/n", TEXT[:150], headers=[(b"content-type", b"text/plain")], spref=0, compress=True),
           H(b"/q", b"q:", kind=1, headers=[(b"content-type", b"text/plain")], spref=1),
@@ -278,13 +477,28 @@ def host_cfg(cache, pkg, with_files=True, slow=(), ctlen=True):
     hs.append(H(b"/up", b"u" * 70, headers=[(b"content-type", b"text/plain"), (b"upgrade", b"h2c"), (b"te", b"gzip"), (b"proxy-connection", b"close"),
                                              (b"connection", b"close")], spref=2, compress=True))
     hs.append(H(b"/te", b"t" * 10, headers=[(b"te", b"trailers"), (b"x-h", b"te")], spref=2))
+    for i, (path, headers) in enumerate(hops):
+        hs.append(H(path, b"hop page %d " % i * 4, headers=headers, spref=(0, 2)[i % 2], compress=i % 3 == 0))
+    if big >= 1:
+        hs.append(H(b"/big64", BIG64, headers=[(b"content-type", b"text/plain")], spref=2, compress=True))
+    if big >= 2:
+        hs.append(H(b"/big1m", BIG1M, headers=[(b"content-type", b"text/plain")], spref=2, compress=True))
     kvs = [xl(xb("cache"), xbool(cache)), xl(xb("handlers"), xlist(hs)),
            xl(xb("pkg"), xlist([xl(xz(p), xn(k), xb(n), xb(v)) for p, k, n, v in pkg])),
            xl(xb("echo"), xlist([xb(b"/echo")])),
            xl(xb("echon"), xlist([xl(xb(p), xn(n)) for p, n in sorted(ECHON.items())]))]
+    if streams:
+        kvs.append(xl(xb("stream"), xlist([xl(xb(pa), xb(bo), xlist([xb(c) for c in ch]), xlist([xn(ln)] if ln is not None else []),
+                                              xlist([xl(xb(a), xb(b)) for a, b in hd]), xn(st), xn(dl))
+                                           for pa, bo, ch, ln, hd, st, dl in STREAMS])))
+    if limit is not None:
+        kvs.append(xl(xb("limit"), xn(limit)))
     if with_files:
-        kvs.append(xl(xb("files"), xlist([xl(xb("public/f.txt"), xb(TEXT)), xl(xb("public/b.bin"), xb(BIN)),
-                                          xl(xb("public/index.html"), xb(INDEX)), xl(xb("public/e.txt"), xb(b""))])))
+        files = [("public/f.txt", TEXT), ("public/b.bin", BIN), ("public/index.html", INDEX), ("public/e.txt", b"")]
+        if streams:
+            files += SFILES
+            kvs.append(xl(xb("sfiles"), xb(b"/sf/")))
+        kvs.append(xl(xb("files"), xlist([xl(xb(n), xb(b)) for n, b in files])))
     if slow:
         kvs.append(xl(xb("slow"), xlist([xl(xb(p), xb(b), xn(sp)) for p, b, sp in slow])))
     return xlist(kvs)
@@ -323,8 +537,8 @@ def probe(jobs):
         _STATS["probes"] += 1
         o = out.get("p%d" % i)
         v = kv.xparse(o) if o else None
-        if v and v[0] == "L" and len(v[1]) == 2 and v[1][1][0] == "L" and len(v[1][1][1]) == len(reqs) and v[1][0][1]:
-            res.append((v[1][0], v[1][1][1]))
+        if v and v[0] == "L" and len(v[1]) == 3 and v[1][1][0] == "L" and len(v[1][1][1]) == len(reqs) and v[1][0][1]:
+            res.append((v[1][0], v[1][1][1], v[1][2]))
         else:
             _STATS["probe_failures"] += 1
             res.append(None)
@@ -334,20 +548,29 @@ def probe(jobs):
 EMPTY_RESP = xl(xn(11), xn(500), xlist([]), xb(b"probe failed"))
 
 
-def exchanges(reqs, pr):
+def exchanges(reqs, pr, limit=None):
+    """[limit]: the host's limiter lets that many requests pass; the later ones are answered 429 by handle_connection (they
+    never reach layer 4: the probe was run with the first [limit] requests only)"""
     exs = []
     for k, r in enumerate(reqs):
         m, t, hs, b = r
         rg = dict(hs).get(b"range")
+        limited = limit is not None and k >= limit
+        fut = None
         if pr is None:
             l4, sd = EMPTY_RESP, 0
+        elif limited:
+            l4, sd = xl(*pr[2][1][:4]), 0
         else:
             v = pr[1][k][1]
             l4, sd = xl(*v[:4]), v[4][1]
+            if len(v) > 5:
+                fut = v[5]          # (L bytes (L [len])): what the response's future writes, observed in process
         # [want]: the handler that answers calls read_to_bytes(want) — the body-reading handlers answer 200, and are not
         # run when sanitize_request refuses the request (416 / 400: layer 4 answers the error page)
-        want = READS.get(t.split(b"?")[0]) if l4[1][1] == ("N", 200) and sd == 0 else None
-        exs.append(xl(xb(m), xopt(None if rg is None else xb(rg)), xbool(sd != 1), l4, xn(len(b)), xopt(None if want is None else xn(want))))
+        want = READS.get(t.split(b"?")[0]) if l4[1][1] == ("N", 200) and sd == 0 and not limited else None
+        exs.append(xl(xb(m), xopt(None if rg is None else xb(rg)), xbool(sd != 1), l4, xn(len(b)), xopt(None if want is None else xn(want)),
+                      xl(xbool(limited), xopt(fut))))
     e416 = EMPTY_RESP if pr is None else xl(*pr[0][1][:4])
     return e416, xlist(exs)
 
@@ -356,12 +579,13 @@ def exchanges(reqs, pr):
 # requests
 # ----------------------------------------------------------------------------------------------
 AES = [None, b"gzip", b"br", b"identity", b"gzip, br;q=0.5", b"gzip;q=0", b"*;q=0, identity;q=0", b"zstd"]
-PATHS = [b"/ka", b"/up", b"/te", b"/p", b"/p", b"/n", b"/q", b"/q?x=1", b"/q?x=2", b"/m", b"/empty", b"/short", b"/nf", b"/ise", b"/cl", b"/f.txt", b"/f.txt",
+PATHS = [b"/hs0", b"/hs1", b"/hs2", b"/st1", b"/st2", b"/st3", b"/st4", b"/st5", b"/st0", b"/st404", b"/sf/a.bin", b"/sf/t.txt", b"/sf/e.txt",
+         b"/sf/missing.txt", b"/ka", b"/up", b"/te", b"/p", b"/p", b"/n", b"/q", b"/q?x=1", b"/q?x=2", b"/m", b"/empty", b"/short", b"/nf", b"/ise", b"/cl", b"/f.txt", b"/f.txt",
          b"/b.bin", b"/index.html", b"/e.txt", b"/missing", b"/missing.html", b"/./x", b"/p?a=b", b"/dir/../f.txt", b"/f%2Etxt", b"/"]
 
 
 def range_values(rng):
-    n = rng.choice([4, 150, 200, 240, 300, 60])
+    n = rng.choice([4, 150, 200, 240, 300, 60, 180, 103])
     return rng.choice([b"bytes=0-0", b"bytes=0-9", b"bytes=5-5", b"bytes=10-4", b"bytes=%d-%d" % (n - 1, n + 5), b"bytes=%d-%d" % (n, n + 1),
                        b"bytes=%d-%d" % (n + 1, n + 9), b"bytes=2-", b"bytes=-5", b"bytes=0-18446744073709551615", b"bytes=1-2,4-5",
                        b"items=0-1", b"bytes=0-%d" % (n - 1), b"bytes=3-100000"])
@@ -369,7 +593,8 @@ def range_values(rng):
 
 # methods whose content-length kvarn's HTTP/1 reader honours (utils::get_body_length_request)
 BODY_METHODS = (b"POST", b"PUT", b"DELETE", b"PATCH")
-BODY_SIZES = [1, 2, 5, 64, 99, 100, 101, 700, 5000, 5000, 20000, 65535, 65536, 70000, 150000]
+BODY_SIZES = [1, 2, 5, 64, 99, 100, 101, 700, 5000, 5000, 16384, 16385, 19999, 20000, 20001, 32768, 33001, 40000, 40000, 65535, 65536, 70000,
+              150000]
 
 
 LATE = b"x-c20-late-body"     # pseudo header for the harness's HTTP/1.1 client, never sent (see harness/src/c20.rs)
@@ -389,7 +614,11 @@ def late(rng, target, p_after=0.5, p_ms=0.25):
 def rand_body(rng, n):
     if n > 2000:
         seed = bytes(rng.randrange(32, 127) for _ in range(97))
-        return (seed * (n // 97 + 1))[:n]
+        # every 1000 bytes a position stamp: a prefix is recognisable as such
+        out = bytearray((seed * (n // 97 + 1))[:n])
+        for k in range(0, n - 8, 1000):
+            out[k:k + 8] = b"@%07d" % k
+        return bytes(out)
     return bytes(rng.randrange(32, 127) for _ in range(n))
 
 
@@ -415,7 +644,7 @@ def rand_request(rng, focus=None):
         # nothing at all (pages, files, 404 / 405 / 416 / 400 answers, cache hits) - the rest of the history follows on
         # the same connection.  Sizes around the HTTP/2 initial flow-control window (65535) need WINDOW_UPDATEs.
         if rng.random() < 0.5:
-            t = rng.choice([b"/echo", b"/echo", b"/echo3", b"/echo100"])
+            t = rng.choice([b"/echo", b"/echo", b"/echo3", b"/echo100", b"/echo20k", b"/echo20k", b"/echo33k"])
         body = rand_body(rng, rng.choice(BODY_SIZES))
         hs.append((b"content-length", b"%d" % len(body)))
         hs += late(rng, t)
@@ -484,27 +713,74 @@ DIRECTED_HISTORIES = [
     [R(b"POST", b"/echo", [(b"content-length", b"70000")], b"W" * 70000), R(b"POST", b"/echo3", [(b"content-length", b"70000")], b"X" * 70000),
      R(b"PUT", b"/f.txt", [(b"content-length", b"70000")], b"Y" * 70000), R(b"POST", b"/missing", [(b"content-length", b"66000")], b"Z" * 66000),
      R(b"POST", b"/echo", [(b"content-length", b"150000")], bytes(97 + i % 23 for i in range(150000))), R(b"GET", b"/p")],
+    # limits smaller than the body, reached inside the second / third DATA frame of a body that spans several (HTTP/2: 16384-byte
+    # frames): read_to_bytes(20000) of 40000 bytes (frames 16384 + 16384 + 7232), read_to_bytes(33000) of 70000, around the limits
+    [R(b"POST", b"/echo20k", [(b"content-length", b"40000")], bytes(48 + (i * 7 + i // 1000) % 75 for i in range(40000))),
+     R(b"PUT", b"/echo33k", [(b"content-length", b"70000")], bytes(33 + (i * 11 + i // 997) % 90 for i in range(70000))),
+     R(b"POST", b"/echo20k", [(b"content-length", b"20001")], bytes(65 + i % 26 for i in range(20001))),
+     R(b"POST", b"/echo20k", [(b"content-length", b"19999")], bytes(97 + i % 26 for i in range(19999))),
+     R(b"POST", b"/echo100", [(b"content-length", b"40000"), (LATE, b"5")], bytes(48 + (i * 3) % 75 for i in range(40000))), R(b"GET", b"/p")],
+    # streamed responses: a future that writes known chunks (length known to kvarn / stated by the handler / after a Response
+    # body / more than an HTTP/2 window / slowly / nothing at all / an error status), GET and HEAD, ranges (not applied to streams)
+    [R(b"GET", b"/st1"), R(b"HEAD", b"/st1"), R(b"GET", b"/st2"), R(b"GET", b"/st3"), R(b"HEAD", b"/st3"), R(b"GET", b"/st4"),
+     R(b"GET", b"/st5"), R(b"GET", b"/st0"), R(b"GET", b"/st404"), R(b"GET", b"/st1", [(b"range", b"bytes=2-5")]),
+     R(b"POST", b"/st1", [(b"content-length", b"700")], b"s" * 700), R(b"HEAD", b"/st2"), R(b"GET", b"/p")],
+    # extensions::stream_body() on files: whole, HEAD, ranges inside, across and beyond the end, empty file, missing file
+    [R(b"GET", b"/sf/t.txt"), R(b"HEAD", b"/sf/t.txt"), R(b"GET", b"/sf/a.bin"), R(b"GET", b"/sf/a.bin", [(b"range", b"bytes=10-19")]),
+     R(b"GET", b"/sf/t.txt", [(b"range", b"bytes=100-100000")]), R(b"GET", b"/sf/t.txt", [(b"range", b"bytes=500-600")]),
+     R(b"GET", b"/sf/t.txt", [(b"range", b"bytes=179-179")]), R(b"GET", b"/sf/t.txt", [(b"range", b"bytes=180-181")]),
+     R(b"HEAD", b"/sf/a.bin", [(b"range", b"bytes=99990-")]), R(b"GET", b"/sf/e.txt"), R(b"GET", b"/sf/e.txt", [(b"range", b"bytes=0-0")]),
+     R(b"GET", b"/sf/missing.txt"), R(b"GET", b"/sf/t.txt", [(b"accept-encoding", b"gzip")]), R(b"GET", b"/f.txt")],
+    # every connection-specific header on its own WITHOUT a connection header, all at once, with connection, nominated header
+    [R(b"GET", b"/hs%d" % i) for i in range(10)] + [R(b"HEAD", b"/hs0"), R(b"GET", b"/hs6", [(b"accept-encoding", b"gzip")]),
+                                                    R(b"GET", b"/hs3", [(b"range", b"bytes=3-8")]), R(b"GET", b"/p")],
     # empty bodies
     [R(b"GET", b"/empty"), R(b"HEAD", b"/empty"), R(b"GET", b"/e.txt"), R(b"GET", b"/empty", [(b"range", b"bytes=0-0")]), R(b"GET", b"/short", [(b"accept-encoding", b"gzip")])],
 ]
 
 
-def pair_case(cfg, pkg, reqs, pr, secure1, kind):
-    e416, exs = exchanges(reqs, pr)
+def pair_case(cfg, pkg, reqs, pr, secure1, kind, limit=None):
+    e416, exs = exchanges(reqs, pr, limit)
     x = xl(xbool(True), xl(cfg, xlist([x_req(r) for r in reqs])), pkg_order(pkg), xopt(xb(ALT)), e416, exs, xbool(secure1))
     return Case("proto.pair", x, "proto.pair_spec", {"kind": kind})
 
 
-def gen_pairs(rng, n_random, kind="pair"):
+def gen_pairs(rng, n_random, kind="pair", n_limited=2, big=(1,)):
+    # plan = (cache, pkg, history, secure1, kind, host options, limit)
     plans = []
     for i, h in enumerate(DIRECTED_HISTORIES):
         for cache in (True, False):
-            plans.append((cache, PKG_MENUS[(i + cache) % len(PKG_MENUS)], h, (i + cache) % 3 != 0, kind + "-directed"))
+            plans.append((cache, PKG_MENUS[(i + cache) % len(PKG_MENUS)], h, (i + cache) % 3 != 0, kind + "-directed", {}, None))
     for _ in range(n_random):
-        plans.append((rng.random() < 0.7, rng.choice(PKG_MENUS), history(rng), rng.random() < 0.7, kind))
-    jobs = [(host_cfg(c, pkg), h, 0) for c, pkg, h, _, _ in plans]
+        plans.append((rng.random() < 0.7, rng.choice(PKG_MENUS), history(rng), rng.random() < 0.7, kind, {"hops": rand_hops(rng)}, None))
+    # the host's request limiter: the first `limit` requests pass, the rest of the history (and the framing sentinel) is
+    # answered 429 by handle_connection itself, on both protocols
+    for j in range(n_limited):
+        h = history(rng)[:8]
+        while len(h) < 6:
+            h.append(rand_request(rng))
+        limit = max(3, (len(h) + 1 + 2) // 3, rng.randrange(3, len(h)))
+        if j == 0:
+            h = h[:limit] + [R(b"HEAD", b"/p"), R(b"GET", b"/missing"), R(b"POST", b"/echo", [(b"content-length", b"700")], b"l" * 700)] + h[limit:limit + 2]
+        plans.append((j % 2 == 0, PKG_MENUS[j % len(PKG_MENUS)], h, j % 2 == 0, kind + "-limited", {"limit": limit}, limit))
+    # large compressible representations, cached and uncached, every encoding, ranged, HEAD
+    for j, b in enumerate(big):
+        t = b"/big64" if b == 1 else b"/big1m"
+        n = len(BIG64) if b == 1 else len(BIG1M)
+        h = [R(b"GET", t), R(b"GET", t, [(b"accept-encoding", b"gzip")]), R(b"HEAD", t, [(b"accept-encoding", b"gzip")]),
+             R(b"GET", t, [(b"accept-encoding", b"gzip")]), R(b"GET", t, [(b"range", b"bytes=%d-" % (n - 70000))]),
+             R(b"GET", t, [(b"accept-encoding", b"gzip"), (b"range", b"bytes=100-199")])]
+        if b == 1:
+            h += [R(b"GET", t, [(b"accept-encoding", b"br")]), R(b"GET", t, [(b"accept-encoding", b"br"), (b"range", b"bytes=0-65535")])]
+        plans.append((j % 2 == 0, PKG_MENUS[(j + 1) % len(PKG_MENUS)], h, True, kind + "-big", {"big": b, "streams": False, "hops": ()}, None))
+    jobs = [(host_cfg(c, pkg, **opt), h if lim is None else h[:lim], 0) for c, pkg, h, _, _, opt, lim in plans]
     prs = probe(jobs)
-    return [pair_case(job[0], pkg, h, pr, s1, k) for (c, pkg, h, s1, k), job, pr in zip(plans, jobs, prs)]
+    out = []
+    for (c, pkg, h, s1, k, opt, lim), job, pr in zip(plans, jobs, prs):
+        if lim is not None and pr is not None:
+            pr = (pr[0], pr[1] + [None] * (len(h) - lim), pr[2])
+        out.append(pair_case(job[0], pkg, h, pr, s1, k, lim))
+    return out
 
 
 UNREAD_HISTORIES = [
@@ -583,7 +859,10 @@ def gen_mini(rng, n):
 # ----------------------------------------------------------------------------------------------
 # bursts
 # ----------------------------------------------------------------------------------------------
-def burst_plan(rng, n):
+CANCEL = b"x-c20-cancel"     # pseudo header (never sent): the client cancels the stream this many ms after the request
+
+
+def burst_plan(rng, n, p_cancel=0.12):
     cache = rng.random() < 0.75
     nslow = rng.randrange(1, 5)
     slow = [(b"/slow%d" % i, b"slow page %d " % i * 5, rng.choice([0, 2, 2])) for i in range(nslow)]
@@ -598,17 +877,23 @@ def burst_plan(rng, n):
             hs.append((b"x-delay", b"%d" % rng.choice([0, 10, 40, 80, 120, 160, 200, 250])))
             if rng.random() < 0.25:
                 hs.append((b"range", rng.choice([b"bytes=0-4", b"bytes=5-9", b"bytes=900-901", b"bytes=3-1"])))
+            if rng.random() < p_cancel:
+                # the client resets this stream while (or before, or after) its handler sleeps: RST_STREAM(CANCEL)
+                hs.append((CANCEL, b"%d" % rng.choice([0, 1, 5, 30, 90, 150])))
         elif u < 0.8:
-            t = rng.choice([b"/p", b"/f.txt", b"/b.bin", b"/missing", b"/q?s=%d" % s, b"/n", b"/cl"])
+            t = rng.choice([b"/p", b"/f.txt", b"/b.bin", b"/missing", b"/q?s=%d" % s, b"/n", b"/cl", b"/st1", b"/st3", b"/st4", b"/sf/t.txt", b"/hs0", b"/hs4"])
             m = rng.choice([b"GET", b"GET", b"HEAD"])
             if rng.random() < 0.5:
                 hs.append((b"accept-encoding", rng.choice([b"gzip", b"br"])))
             if rng.random() < 0.3:
                 hs.append((b"range", rng.choice([b"bytes=0-9", b"bytes=20-29"])))
         elif u < 0.9:
-            t, m = b"/echo", b"POST"
-            body = b"stream-%d-" % s + rand_body(rng, rng.choice([3, 40, 2000, 2000, 70000]))
+            t, m = rng.choice([b"/echo", b"/echo", b"/echo20k"]), b"POST"
+            body = b"stream-%d-" % s + rand_body(rng, rng.choice([3, 40, 2000, 2000, 40000, 70000]))
             hs.append((b"content-length", b"%d" % len(body)))
+            if rng.random() < p_cancel:
+                # cancelled while the request body is on its way / being read
+                hs.append((CANCEL, b"%d" % rng.choice([0, 1, 5, 30])))
         else:
             # a body that is read in part or not at all, among the other streams
             t = rng.choice([b"/echo3", b"/echo100", b"/p", b"/f.txt", b"/missing", rng.choice(slow)[0]])
@@ -622,7 +907,7 @@ def burst_plan(rng, n):
     return cache, slow, reqs
 
 
-def burst_cases(cfg, pkg, cache, slow, reqs, pr, kind, with_h1):
+def burst_cases(cfg, pkg, cache, slow, reqs, pr, kind, with_h1, two=False):
     e416, exs = exchanges(reqs, pr)
     spref = dict((p, sp) for p, _, sp in slow)
     strs, delays = [], []
@@ -635,15 +920,24 @@ def burst_cases(cfg, pkg, cache, slow, reqs, pr, kind, with_h1):
         elif path == b"/q":
             cacheable, cls = cache, t
         else:
-            cacheable, cls = cache and path not in (b"/n", b"/echo") and path not in ECHON, path
+            cacheable, cls = (cache and path not in (b"/n", b"/echo") and path not in ECHON and path not in STREAM_PATHS
+                              and not path.startswith(b"/sf/") and path not in (b"/hs0", b"/hs4")), path
         cacheable = cacheable and m in (b"GET", b"HEAD")
-        strs.append(xl(xn(s + 1), xb(cls + b"|" + d.get(b"accept-encoding", b"")), xbool(cacheable)))
+        cancel = d.get(CANCEL)
+        strs.append(xl(xn(s + 1), xb(cls + b"|" + d.get(b"accept-encoding", b"")), xbool(cacheable), xopt(None if cancel is None else xn(int(cancel)))))
         delays.append(int(d.get(b"x-delay", b"0")))
     n = len(reqs)
     sched = [s + 1 for s in range(n)] + [s + 1 for s in sorted(range(n), key=lambda s: (delays[s], s))]
-    x = xl(xbool(True), xl(cfg, xlist([x_req(r) for r in reqs])), pkg_order(pkg), xopt(xb(ALT)), e416, exs, xlist(strs), xlist([xn(s) for s in sched]))
-    meta = {"kind": kind, "streams": n, "orders": len(set(delays))}
-    cases = [Case("proto.burst", x, "proto.burst_spec", dict(meta)), Case("proto.alone", x, "proto.burst_spec", dict(meta, kind=kind + "-alone"))]
+    # the pseudo header is not part of the request
+    wire_reqs = [R(m, t, tuple(h for h in hs if h[0] != CANCEL), b) for m, t, hs, b in reqs]
+    x = xl(xbool(True), xl(cfg, xlist([x_req(r) for r in wire_reqs])), pkg_order(pkg), xopt(xb(ALT)), e416, exs, xlist(strs), xlist([xn(s) for s in sched]))
+    meta = {"kind": kind, "streams": n, "orders": len(set(delays)), "cancelled": sum(1 for r in reqs if dict(r[2]).get(CANCEL) is not None)}
+    cases = [Case("proto.burst", x, "proto.burst_spec", dict(meta))]
+    if n <= 40:
+        cases.append(Case("proto.alone", x, "proto.burst_spec", dict(meta, kind=kind + "-alone")))
+    if two:
+        # the same burst spread over TWO HTTP/2 connections to the same host, at once
+        cases.append(Case("proto.burst2", x, "proto.burst_spec", dict(meta, kind=kind + "-2conn")))
     if with_h1:
         cases += [Case("proto.burst1", x, "proto.burst1_spec", dict(meta, kind=kind + "-h1")),
                   Case("proto.alone1", x, "proto.burst1_spec", dict(meta, kind=kind + "-h1-alone"))]
@@ -655,27 +949,79 @@ def gen_bursts(rng, sizes, kind="burst"):
     for i, n in enumerate(sizes):
         cache, slow, reqs = burst_plan(rng, n)
         pkg = PKG_MENUS[i % len(PKG_MENUS)]
-        plans.append((host_cfg(cache, pkg, slow=slow), pkg, cache, slow, reqs, i % 3 == 0))
+        plans.append((host_cfg(cache, pkg, slow=slow), pkg, cache, slow, reqs, i % 3 == 0 and n <= 40, i % 3 == 1))
     # alone: every request on its own fresh host, no delay
-    jobs = [(cfg, [R(m, t, tuple((a, b"0" if a == b"x-delay" else v) for a, v in hs), b) for m, t, hs, b in reqs], 1)
-            for cfg, _, _, _, reqs, _ in plans]
+    jobs = [(cfg, [R(m, t, tuple((a, b"0" if a == b"x-delay" else v) for a, v in hs if a != CANCEL), b) for m, t, hs, b in reqs], 1)
+            for cfg, _, _, _, reqs, _, _ in plans]
     prs = probe(jobs)
     cases = []
-    for (cfg, pkg, cache, slow, reqs, h1), pr in zip(plans, prs):
-        cases += burst_cases(cfg, pkg, cache, slow, reqs, pr, kind, h1)
+    for (cfg, pkg, cache, slow, reqs, h1, two), pr in zip(plans, prs):
+        cases += burst_cases(cfg, pkg, cache, slow, reqs, pr, kind, h1, two)
     return cases
+
+
+# ----------------------------------------------------------------------------------------------
+# which bytes read_to_bytes returns (proto.body); extensions::stream_body on files (proto.sbody)
+# ----------------------------------------------------------------------------------------------
+def body_case(body, frames, early, limits, kind):
+    x = xl(xb(body), xlist([xn(f) for f in frames]), xn(early), xlist([xn(l) for l in limits]))
+    return Case("proto.body", x, "proto.body_spec", {"kind": kind})
+
+
+# the known class h2-body-read-again: read_to_bytes(20000) then read_to_bytes(1000000) of 40000 bytes in frames 16384+16384+7232
+KNOWN_SECOND_READ = (bytes(48 + (i * 7 + i // 1000) % 75 for i in range(40000)), [16384, 16384], 0, [20000, 1000000])
+
+
+def gen_bodies(rng, n):
+    cases = [body_case(*KNOWN_SECOND_READ, "known-second-read"),
+             # one limit: the seeded pattern (limit reached in the second frame), limit = body, limit 1, frames of 1 byte
+             body_case(KNOWN_SECOND_READ[0], [16384, 16384], 100, [20000], "body-directed"),
+             body_case(b"0123456789" * 7, [1, 1, 1, 0, 30], 3, [33], "body-directed"),
+             body_case(rand_body(rng, 70000), [16384] * 4, 70000, [33000], "body-directed"),
+             # a second call after a call that did NOT hit its limit returns nothing on both protocols
+             body_case(b"abcdefghij" * 300, [1000, 1000], 10, [5000, 100], "body-directed")]
+    for _ in range(n):
+        size = rng.choice([1, 7, 300, 5000, 16384, 16385, 30000, 40000, 70000, 150000])
+        body = rand_body(rng, size)
+        frames, left = [], size
+        while left > 0 and len(frames) < 24 and rng.random() < 0.9:
+            f = rng.choice([1, 10, 1000, 5000, 16384, 16384, 16384, rng.randrange(1, 16385)])
+            frames.append(min(f, 16384))
+            left -= frames[-1]
+        if left > 16384:
+            frames += [16384] * (left // 16384)
+        limit = rng.choice([1, 3, size - 1, size, size + 1, size // 2, 16384, 16385, 20000, 33000, 1 << 20, rng.randrange(1, size + 2)])
+        cases.append(body_case(body, frames, rng.choice([0, 0, 1, 100, size // 3, size, size + 5]), [max(1, limit)], "body"))
+    return cases
+
+
+def gen_sbodies(rng, n):
+    plans = [(STEXT, None), (STEXT, (100, 100001)), (STEXT, (500, 601)), (STEXT, (179, 180)), (STEXT, (180, 182)), (b"", None), (b"", (0, 1)),
+             (SFILE, (99990, 200000)), (SFILE, (65535, 65537))]
+    for _ in range(n):
+        size = rng.choice([0, 1, 17, 180, 70000])
+        f = bytes(rng.randrange(256) for _ in range(min(size, 300))) * (size // 300 + 1)
+        f = f[:size]
+        a = rng.choice([0, 1, size - 1, size, size + 1, rng.randrange(0, size + 3)])
+        a = max(0, a)
+        plans.append((f, rng.choice([None, (a, a + rng.choice([1, 2, 10, size + 1, 100000]))])))
+    return [Case("proto.sbody", xl(xb(f), xopt(None if r is None else xl(xn(r[0]), xn(r[1])))), None, {"kind": "stream_body"}) for f, r in plans]
 
 
 def generate(rng, tier):
     if tier == "thorough":
-        cases = gen_pairs(rng, 1600) + gen_servers(rng, 40) + gen_mini(rng, 100) + gen_answered(rng, 150) + gen_bursts(rng, [2, 3, 4, 6, 8, 12, 16, 24, 32] * 16 + [32] * 6)
+        cases = (gen_pairs(rng, 1500, n_limited=40, big=(1, 2, 1, 2)) + gen_servers(rng, 40) + gen_mini(rng, 100) + gen_answered(rng, 150)
+                 + gen_bodies(rng, 300) + gen_sbodies(rng, 150)
+                 + gen_bursts(rng, [2, 3, 4, 6, 8, 12, 16, 24, 32] * 14 + [32] * 6 + [64, 100] * 6))
     else:
-        cases = gen_pairs(rng, 50) + gen_servers(rng, 6) + gen_mini(rng, 16) + gen_answered(rng, 6) + gen_bursts(rng, [2, 3, 5, 9, 16, 24, 32])
+        cases = (gen_pairs(rng, 40, n_limited=2, big=(1, 2)) + gen_servers(rng, 6) + gen_mini(rng, 16) + gen_answered(rng, 6)
+                 + gen_bodies(rng, 14) + gen_sbodies(rng, 8) + gen_bursts(rng, [2, 3, 5, 9, 16, 32, 100]))
     return cases
 
 
 def directed(rng, mismatches):
-    return gen_pairs(rng, 120, "directed") + [c for c in gen_bursts(rng, [4, 8, 16, 32, 32, 12], "directed-burst") if c.spec]
+    return (gen_pairs(rng, 100, "directed", n_limited=6, big=()) + gen_bodies(rng, 60)
+            + [c for c in gen_bursts(rng, [4, 8, 16, 32, 32, 12], "directed-burst") if c.spec])
 
 
 # ----------------------------------------------------------------------------------------------
@@ -705,6 +1051,8 @@ def wire(w):
         inner = w[1][1]
         if inner[1][0] == ("N", 3):
             return "refused"
+        if inner[1][0] == ("N", 4):
+            return "broken"
         v, st, hs, b = inner[1][1][1]
         return {"version": v[1], "status": st[1], "headers": sorted((h[1][0][1], h[1][1][1]) for h in hs[1]), "body": b[1]}
     except Exception:
@@ -740,7 +1088,7 @@ def spec_ok(c, i, s):
             want = spec_wire(sp)
             for w in e[1]:
                 got = wire(w)
-                if got == "refused":
+                if got in ("refused", "broken"):
                     return False
                 if got is None or norm(got) != want:
                     return False
@@ -748,6 +1096,18 @@ def spec_ok(c, i, s):
     ci, cs = canon(iv), canon(sv)
     if ci == cs:
         return True
+    if c.comp == "proto.body":
+        try:
+            body, limits = c.x[1][0][1], [l[1] for l in c.x[1][3][1]]
+            h1, h2 = [b[1] for b in iv[1][0][1]], [b[1] for b in iv[1][1][1]]
+            def show(rs):
+                return ", ".join("%d bytes%s" % (len(r), "" if body.startswith(r) else " (NOT a prefix of the body)") for r in rs)
+            c.meta["why"] = ("a %d-byte request body, handler calling read_to_bytes(%s): over HTTP/1.1 it got %s; over HTTP/2 (DATA frames %s...) it got "
+                             "%s; specified: the first min(limit, length) bytes, then nothing"
+                             % (len(body), "), read_to_bytes(".join(map(str, limits)), show(h1), [f[1] for f in c.x[1][1][1]][:6], show(h2)))
+        except Exception:
+            pass
+        return False
     # which stream did not get the answer of its own request?
     try:
         if ci[1] and ci[1][0][0] == "N":
@@ -768,8 +1128,33 @@ def spec_ok(c, i, s):
     return False
 
 
+def sbody_oracle(c, i):
+    """extensions::stream_body(): the length announced is the number of bytes written, and they are the requested part of the file"""
+    try:
+        f = c.x[1][0][1]
+        rg = [(r[1][0][1], r[1][1][1]) for r in c.x[1][1][1]]
+        v = kv.xparse(i)
+    except Exception:
+        return "unparsable output"
+    if v[0] != "L" or (v[1] and v[1][0][0] == "N"):
+        return "stream_body answered neither a stream nor 416: " + kv.pretty(v, 200)
+    if not v[1]:
+        return None if rg and rg[0][0] >= len(f) else "416 for a satisfiable Range %r on a %d-byte file" % (rg, len(f))
+    written, ln = v[1][0][1][0][1], v[1][0][1][1][1]
+    a, e = rg[0] if rg else (0, len(f))
+    if a >= len(f) and rg:
+        return "a Range that starts at or after the end of the %d-byte file was answered with a stream" % len(f)
+    if ln != len(written):
+        return "stream_body announced %d bytes and wrote %d (file of %d bytes, Range %r)" % (ln, len(written), len(f), rg)
+    if written != f[a:min(e, len(f))]:
+        return "stream_body wrote other bytes than [%d, %d) of the file" % (a, min(e, len(f)))
+    return None
+
+
 def extra_oracle(c, i):
     """parity itself, on the implementation's output only"""
+    if c.comp == "proto.sbody":
+        return sbody_oracle(c, i)
     if c.comp not in PAIRS:
         return None
     try:
@@ -804,10 +1189,25 @@ def undeclared_body(c):
     return any(r[1][3][1] and r[1][0][1] not in BODY_METHODS for r in c.x[1][1][1][1][1])
 
 
+def second_read(c, i):
+    """proto.body with two limits: both protocols return the first [l1] bytes to the first call, HTTP/1.1 nothing to the second
+    call and HTTP/2 something (the frames after the one in which the first call hit its limit)"""
+    try:
+        body, limits = c.x[1][0][1], [l[1] for l in c.x[1][3][1]]
+        v = kv.xparse(i)
+        h1, h2 = [b[1] for b in v[1][0][1]], [b[1] for b in v[1][1][1]]
+        return (len(limits) == 2 and limits[0] < len(body) and h1 == [body[:limits[0]], b""] and len(h2) == 2 and h2[0] == h1[0]
+                and h2[1] != b"" and body.endswith(h2[1]))
+    except Exception:
+        return False
+
+
 def classify(c, i):
     # (the class h1-unread-request-body was repaired by dfe4d54: fixed: line in known-findings.txt)
     if c.comp == "proto.answered" and i == "(L (N 0) (N 1))" and undeclared_body(c):
         return "h1-undeclared-request-body"
+    if c.comp == "proto.body" and second_read(c, i):
+        return "h2-body-read-again"
     return None
 
 
@@ -820,11 +1220,22 @@ def signature(c, m):
 
 def extra_coverage(cases, impl, model, spec):
     pairs = [c for c in cases if c.comp in PAIRS]
-    bursts = [c for c in cases if c.comp in ("proto.burst", "proto.burst1")]
-    return {"histories_through_both_protocols": len(pairs),
+    bursts = [c for c in cases if c.comp in ("proto.burst", "proto.burst1", "proto.burst2")]
+    import re
+    statuses = {}
+    for c in cases:
+        for st in re.findall(r"\(L \(N (?:10|11|20)\) \(N (\d+)\)", impl.get(c.id) or ""):
+            statuses[st] = statuses.get(st, 0) + 1
+    return {"answer_statuses_seen": dict(sorted(statuses.items())),
+            "histories_through_both_protocols": len(pairs),
             "requests_through_both_protocols": sum(len(c.x[1][5][1]) for c in pairs),
             "histories_through_complete_servers_(RunConfig::execute)": len([c for c in cases if c.comp == "proto.server"]),
             "bursts": len(bursts),
             "concurrent_streams": sum(c.meta.get("streams", 0) for c in bursts),
             "max_streams_in_one_burst": max([c.meta.get("streams", 0) for c in bursts] or [0]),
+            "cancelled_streams": sum(c.meta.get("cancelled", 0) for c in bursts),
+            "bursts_over_two_connections": len([c for c in cases if c.comp == "proto.burst2"]),
+            "streamed_exchanges_through_both_protocols": sum(1 for c in pairs for e in c.x[1][5][1] if len(e[1]) > 6 and e[1][6][1][1][1]),
+            "limiter_answered_exchanges": sum(1 for c in pairs for e in c.x[1][5][1] if len(e[1]) > 6 and e[1][6][1][0] == ("N", 1)),
+            "request_body_reads_(proto.body)": len([c for c in cases if c.comp == "proto.body"]),
             "layer4_probes": _STATS["probes"], "layer4_probe_failures": _STATS["probe_failures"]}
